@@ -128,6 +128,15 @@ def main(argv=None):
                                                         "held on the executions reported here, not a proof"],
         "wall_s": wall, "violations": len(violations),
     }
+    # which functions of the files the property is anchored in did the workload execute (sys.monitoring, see reach.py)
+    try:
+        from . import reach
+        prop = next(json.loads(l) for l in open(os.path.join(VERIF, "properties.jsonl")) if json.loads(l)["id"] == pid)
+        ev["coverage"]["library_reach"] = reach.report(env.REPO, prop["anchors"], pool.REACHED)
+        if not a.replay and a.only is None and not a.cases and hasattr(sys, "monitoring") and ev["coverage"]["library_reach"]["anchored_functions_executed"] == 0:
+            reasons.append("no function of the files the property is anchored in was executed by the workload")
+    except Exception as e:
+        ev["coverage"]["library_reach"] = {"error": f"{type(e).__name__}: {e}"}
     if getattr(mod, "EXHAUSTIVE", False):
         ev["coverage"]["exhaustive"] = True
     if hasattr(mod, "extra_evidence"):
